@@ -41,9 +41,17 @@ def check_commits(res, tr):
     outstanding = 0
     failed_blocks = []
     cancelled_blocks = []
+    start_failed_reported = False
+    reported_blocks = []  # prefix of failed_blocks whose failure has been followed by a failing start Deferred
     for idx, ev in enumerate(log):
         k = ev[0]
-        if k == "proc_call":
+        if k == "start":
+            start_failed_reported = False
+        elif k == "start_fired":
+            if not ev[2]:
+                start_failed_reported = True
+                reported_blocks.extend(failed_blocks[len(reported_blocks):])
+        elif k == "proc_call":
             D.update(ev[3])
         elif k == "proc_done":
             call = tr.calls[ev[2]]
@@ -54,6 +62,10 @@ def check_commits(res, tr):
                     lp = offs[-1]
             else:
                 res.hit("processor_failures")
+                if start_failed_reported and len(reported_blocks) == len(failed_blocks):
+                    # this incarnation's start Deferred has already failed: the application knows (the listed
+                    # finding's history - the consumer carried on)
+                    reported_blocks.append([m[0] for m in call["msgs"]])
                 failed_blocks.append([m[0] for m in call["msgs"]])
         elif k == "proc_cancelled":
             cancelled_blocks.append([m[0] for m in tr.calls[ev[2]]["msgs"]])
@@ -72,7 +84,11 @@ def check_commits(res, tr):
             unprocessed = sorted(o for o in D if o <= v and o not in S)
             if unprocessed:
                 if any(o in blk for blk in failed_blocks for o in unprocessed):
-                    mech = "processing-continues-after-processor-failure"
+                    # the listed finding: the failure was reported on the start Deferred and the application did not
+                    # stop the consumer.  A failure the application was never told about is something else.
+                    silent = [blk for blk in failed_blocks[len(reported_blocks):] if any(o in blk for o in unprocessed)]
+                    mech = "processing-continues-after-processor-failure" if not silent \
+                        else "processor-failure-never-reported-on-start-deferred"
                 elif any(o in blk for blk in cancelled_blocks for o in unprocessed):
                     mech = "block-cancelled-by-stop-then-later-block-processed"
                 else:
@@ -259,7 +275,9 @@ def crash_and_resume(sc, k, res):
         D = set(m[0] for call in tr.calls for m in call["msgs"])
         lost = sorted(o for o in D if o <= c and o not in S)
         failed_offs = set(m[0] for call in tr.calls if call["ok"] is False for m in call["msgs"])
-        mech = "processing-continues-after-processor-failure" if lost and all(o in failed_offs for o in lost) \
+        reported = any(not f[1] for st in tr.starts for f in st["fires"])
+        mech = ("processing-continues-after-processor-failure" if reported else
+                "processor-failure-never-reported-on-start-deferred") if lost and all(o in failed_offs for o in lost) \
             else "other"
         if lost and (sc["stored"] is None or c != sc["stored"]):
             res.violate("resume/committed-offset-covers-unprocessed-messages/%s" % mech, "the stored offset %d lies beyond "
